@@ -7,6 +7,7 @@ import (
 	"bytes"
 	"fmt"
 	"math/rand/v2"
+	"sort"
 	"strings"
 	"testing"
 	"testing/synctest"
@@ -215,7 +216,9 @@ func c07Gen(rng *rand.Rand, idx int) c07Scenario {
 			r.At = c.At - time.Duration(1+rng.IntN(5))*time.Millisecond + OffArrival
 			r.D2 = time.Duration(1+rng.IntN(12))*time.Millisecond + OffHook
 			// a slower request already in flight keeps the command's drain open across the claim
-			sc.Reqs = append(sc.Reqs, tlReq{ID: fmt.Sprintf("s%d", i), Method: "GET", Path: "/app/slow", At: r.At - 7*time.Millisecond, Lat: time.Duration(20+rng.IntN(50))*time.Millisecond + OffTarget})
+			if rng.IntN(2) == 0 { // otherwise the targets are idle: the command's drain is over at once, well before the claim
+				sc.Reqs = append(sc.Reqs, tlReq{ID: fmt.Sprintf("s%d", i), Method: "GET", Path: "/app/slow", At: r.At - 7*time.Millisecond, Lat: time.Duration(20+rng.IntN(50))*time.Millisecond + OffTarget})
+			}
 		}
 		sc.Reqs = append(sc.Reqs, r)
 	}
@@ -232,6 +235,14 @@ func TestC07(t *testing.T) {
 			continue
 		}
 		synctest.Test(t, func(t *testing.T) { c07Run(t, run, sc) })
+	}
+	// pause (stop) commands whose drains overlap, requests held afterwards, resume (the scenario of C08)
+	for k := 0; k < run.N(24, 600); k++ {
+		desc := map[string]any{"idx": k, "kind": "overlapping-drains-then-resume"}
+		if !run.Mine(n+4000+k, desc) {
+			continue
+		}
+		synctest.Test(t, func(t *testing.T) { c08Overlap(t, run, k, run.Rand(n+4000+k)) })
 	}
 	for k := 0; k < run.N(32, 800); k++ {
 		desc := map[string]any{"idx": k, "kind": "resume-then-pause-at-once"}
@@ -374,7 +385,13 @@ func c07Run(t *testing.T, run *Run, sc c07Scenario) {
 			req.Hdr = append(req.Hdr, [2]string{"Cookie", "kamal-rollout=u1"})
 		}
 		if r.D2 > 0 {
-			w.SetReqDelay(r.ID, "service.gate.passed", r.D2)
+			// the request lingers either right after the gate or right before its claim (whatever the
+			// code does in between - nothing of duration - is then on the far side of the delay)
+			if len(r.ID)%2 == 0 {
+				w.SetReqDelay(r.ID, "service.gate.passed", r.D2)
+			} else {
+				w.SetReqDelay(r.ID, "lb.claiming", r.D2)
+			}
 		}
 		w.GoReq(r.At, req)
 	}
@@ -509,6 +526,40 @@ func c07Run(t *testing.T, run *Run, sc c07Scenario) {
 			}
 			fail(sig, "request %s (%s %s, arrived %v, service %s max-pause %v): got status=%d target=%q at %v err=%q; allowed: %v", r.ID, r.Method, r.Path, r.At, st.State, st.Max, got.Status, got.Target, got.Done, got.Err, why)
 			return
+		}
+	}
+	// nothing reaches a target between the return of a stop (pause) and the next resume, whenever
+	// the request came in (health-check requests are answered by the proxy and never get there)
+	{
+		type span struct {
+			kind     string
+			from, to time.Duration
+		}
+		var spans []span
+		cmds := append([]*CmdRec{}, w.Cmds...)
+		sort.Slice(cmds, func(i, j int) bool { return cmds[i].Issue < cmds[j].Issue })
+		for i, c := range cmds {
+			if (c.Name != "stop" && c.Name != "pause") || c.Err != "" {
+				continue
+			}
+			sp := span{kind: c.Name, from: c.Ret, to: time.Duration(1<<62 - 1)}
+			for _, d := range cmds[i+1:] {
+				if d.Name == "resume" {
+					sp.to = d.Issue
+					break
+				}
+			}
+			spans = append(spans, sp)
+		}
+		for _, ft := range w.Targets {
+			for _, q := range ft.ReqLog() {
+				for _, sp := range spans {
+					if q.Recv > sp.from+Step && q.Recv < sp.to {
+						fail("forwarded-while-"+map[string]string{"stop": "stopped", "pause": "paused"}[sp.kind], "request %s reached target %s at %v: %s had returned at %v and the next resume was issued at %v", q.ID, ft.Name, q.Recv, sp.kind, sp.from, sp.to)
+						return
+					}
+				}
+			}
 		}
 	}
 	run.Count("requests_checked", len(sc.Reqs))
